@@ -37,7 +37,8 @@ CtxCode == IF ctx = "canceled" THEN 1 ELSE 4
 TRet == /\ Ev("ret") /\ Adv /\ Returning
         /\ Len(log') = Len(log) + 1
         /\ log'[Len(log')][1] = Cur.op
-        /\ \/ Cur.op \in {"closereq", "closeresp"}              \* closing may report a late transport error
+        /\ \/ /\ Cur.op \in {"closereq", "closeresp"}           \* closing may report a late transport error --
+              /\ (ctx # "live" /\ Cur.res = "err" => Cur.code = CtxCode)   \* after the context ended: with its code (C15)
            \/ /\ log'[Len(log')][2] = Cur.res
               /\ (Cur.res = "ctx" => Cur.code = CtxCode)          \* C15: canceled for cancel(), deadline_exceeded for expiry
 \* the library's own wrappers: CallServerStream (Send + CloseRequest) hands back a stream also when the Send found
